@@ -100,6 +100,14 @@ class Scenario:
                         obj.render_to_terminal([fmtstr("hi", "red"), "x"], (1, 1))
                     elif name == "request":
                         obj.send(0)
+                    elif name == "request_key":
+                        os.write(self.out.in_master, b"k")
+                        rec["got"] = type(obj.send(0)).__name__
+                    elif name == "request_paste":
+                        # a burst above the paste threshold: the paste loop reads again and hits BlockingIOError
+                        os.write(self.out.in_master, b"0123456789abcdefghij")
+                        rec["got"] = type(obj.send(0)).__name__
+                        obj.send(0)
                     elif name == "trigger":
                         cb = obj.threadsafe_event_trigger(Ev)
                         cb()
@@ -240,7 +248,7 @@ class C12(TraceCheck):
                 # every single context, every option combination, every crash point of a 3-operation body
                 for sig in (0, 1):
                     for ns in (0, 1):
-                        body = [OP("request"), OP("trigger"), OP("sched")]
+                        body = [OP("request"), OP("trigger"), OP("request_paste"), OP("sched"), OP("request_key")]
                         for cut in range(len(body) + 1):
                             for end in (X, R):
                                 yield [init, E("Input", sigint=sig, nostart=ns)] + body[:cut] + [end]
@@ -258,6 +266,8 @@ class C12(TraceCheck):
                     yield [init, E("Input", sigint=sig), E("Input", sigint=1 - sig), OP("request"), X, OP("request"), X]
                     yield [init, E("Input", sigint=sig), E("Input", sigint=sig), OP("trigger"), R, R]
                     yield [init, E("Fullscreen", hide=1), E("Input", sigint=sig), OP("request"), X, OP("render"), X]
+                    yield [init, E("Input", sigint=sig), OP("request_paste"), OP("request_key"), R]
+                    yield [init, E("Nonblocking"), E("Input", sigint=sig), OP("request_paste"), X, X]
                     yield [init, E("CursorAware", hide=1), E("Input", sigint=sig), OP("request"), R, R]
                     yield [init, E("Input", sigint=sig), OP("request"), X, E("Input", sigint=sig), OP("request"), X,
                            E("Input", sigint=sig), OP("trigger"), X]
